@@ -499,12 +499,12 @@ func randSingleJoin(r *rand.Rand) *sjCase {
 // ---- oracle pool: single-sided join and exit ----
 
 type olCase struct {
-	fn     string // ojoin | oexit
-	stream string
-	a      [2]oAsset
-	shares *big.Int
-	i      int
-	amt    *big.Int // deposit (ojoin) or exiting shares (oexit)
+	fn                                       string // ojoin | oexit
+	stream                                   string
+	a                                        [2]oAsset
+	shares                                   *big.Int
+	i                                        int
+	amt                                      *big.Int // deposit (ojoin) or exiting shares (oexit)
 	exponent, multiplier, portion, threshold sdkmath.LegacyDec
 }
 
@@ -521,7 +521,7 @@ func runOracleLp(ctx sdk.Context, c *olCase, out *Out, stats map[string]int) {
 	params.WeightBreakingFeePortion = c.portion
 	params.ThresholdWeightDifference = c.threshold
 	line := map[string]any{"t": "c05.case", "fn": c.fn, "stream": c.stream, "a0": c.a[0].arr(), "a1": c.a[1].arr(), "S": c.shares.String(), "i": c.i,
-		"amt": c.amt.String(),
+		"amt":    c.amt.String(),
 		"params": []string{c.exponent.BigInt().String(), c.multiplier.BigInt().String(), c.portion.BigInt().String(), c.threshold.BigInt().String(), "1000000000000000000"}}
 	var kind, text string
 	if c.fn == "ojoin" {
